@@ -8,6 +8,8 @@ use super::UnicodeChar;
 pub struct Reader {
   unicode: bool,
   src: String,
+  /// `src` as the code points (unicode mode) or UTF-16 code units it is read as
+  units: Vec<UnicodeChar>,
   index: usize,
   end: usize,
   cps: VecDeque<UnicodeChar>,
@@ -18,6 +20,7 @@ impl Reader {
     Self {
       unicode: false,
       src: "".to_owned(),
+      units: Vec::new(),
       index: 0,
       end: 0,
       cps: VecDeque::with_capacity(4),
@@ -50,6 +53,11 @@ impl Reader {
   ) {
     self.unicode = u_flag;
     source.clone_into(&mut self.src);
+    self.units = if u_flag {
+      source.chars().map(Into::into).collect()
+    } else {
+      source.encode_utf16().map(|u| (u as u32).into()).collect()
+    };
     self.end = end;
     self.rewind(start);
   }
@@ -124,11 +132,8 @@ impl Reader {
   fn at(&self, i: usize) -> Option<UnicodeChar> {
     if i >= self.end {
       None
-    } else if self.unicode {
-      let c = self.src.chars().nth(i).unwrap();
-      Some(c.into())
     } else {
-      Some((self.src.encode_utf16().nth(i).unwrap() as u32).into())
+      Some(self.units[i])
     }
   }
 }
